@@ -130,6 +130,10 @@ class Path:
     def oblige(self, oid: str, goal, kind: str = "post", **meta) -> None:
         if isinstance(goal, bool):
             goal = z3.BoolVal(goal)
+        if self.guards:
+            # raised while a lazily defined sequence element is evaluated at an index term: the element only exists for
+            # indices inside the range, so the obligation is stated under the range guard
+            goal = z3.Implies(z3.And(*self.guards) if len(self.guards) > 1 else self.guards[0], goal)
         self.obligations.append(Obligation(oid, list(self.pc), goal, " ; ".join(self.trace[-12:]), kind, meta))
 
     def event(self, tag: str, payload=None) -> None:
